@@ -54,6 +54,37 @@ Section Loop.
       end
     end.
 
+  (* the minimal repair (NOT the code at the pinned commit): at end of stream
+     keep calling until the decoder says InputEmpty, as the encoding_rs
+     documentation prescribes ("re-push the remaining input", even if empty) *)
+  Fixpoint decode_to_sink_repaired (fuel : nat) (s : dstate) (input : list N) (last : bool)
+    : res (dstate * list event) :=
+    match fuel with
+    | O => Panic
+    | S f =>
+      let cap := N.min (match maxlen s (length input) with Some m => m | None => 8192%N end)
+                       8192%N in
+      let '(r, read, w, s') := dec s input cap last in
+      let out := out_events w in
+      match r with
+      | InputEmpty => Done (s', out)
+      | _ =>
+        let out' := out ++ match r with
+                           | Malformed => [Error false; Replacement]
+                           | _ => []
+                           end in
+        if length input <? read then Panic
+        else
+          let input' := skipn read input in
+          if (match input' with [] => true | _ => false end) && negb last then Done (s', out')
+          else
+            match decode_to_sink_repaired f s' input' last with
+            | Done (s'', evs) => Done (s'', out' ++ evs)
+            | Panic => Panic
+            end
+      end
+    end.
+
   (* how long the loop may run: supplied by the caller of the model (the
      proofs use the decoder's progress measure) *)
   Variable fuel_of : dstate -> list N -> nat.
@@ -70,6 +101,26 @@ Section Loop.
     match decode_to_sink (fuel_of s []) s [] true with
     | Done (_, evs) => Done evs
     | Panic => Panic
+    end.
+
+  Definition enc_finish_repaired (s : dstate) : res (list event) :=
+    match decode_to_sink_repaired (fuel_of s []) s [] true with
+    | Done (_, evs) => Done evs
+    | Panic => Panic
+    end.
+
+  Fixpoint enc_run_repaired (s : dstate) (chunks : list (list N)) : res (list event) :=
+    match chunks with
+    | [] => enc_finish_repaired s
+    | c :: cs =>
+      match enc_process s c with
+      | Panic => Panic
+      | Done (s', evs) =>
+        match enc_run_repaired s' cs with
+        | Done evs' => Done (evs ++ evs')
+        | Panic => Panic
+        end
+      end
     end.
 
   Fixpoint enc_run (s : dstate) (chunks : list (list N)) : res (list event) :=
